@@ -284,8 +284,31 @@ pub fn main_trace(args: &[String]) {
         for k in 0..=(li / bl) { for d in [-1, 0, 1] { targets.push(k * bl + d); } }
         targets.retain(|t| *t >= 0 && *t <= li);
         let sizes: Vec<usize> = vec![0, 1, 15, 16, 17, 4095, 4096, 4097, (ch - 1) as usize, ch as usize, (ch + 1) as usize, l + 1];
-        for _ in 0..nops {
-            let r = rng.next_u32();
+        // ACCESS PATTERN "hops" (skip-scan): the stream is walked from start to end by small reads separated by small
+        // RELATIVE forward seeks (what extracting every other small file does): nops is ignored, the walk ends at the end
+        let hops = job.get("pattern").and_then(Value::as_str) == Some("hops");
+        let maxhop = job.get("maxhop").and_then(Value::as_u64).unwrap_or(4096) as u32;
+        let mut step = 0u64;
+        loop {
+            step += 1;
+            if (!hops && step > nops) || (hops && abs >= li) {
+                break;
+            }
+            let mut r = rng.next_u32();
+            if hops {
+                // odd steps read 1..1500 bytes, even steps hop 1..maxhop bytes forward
+                r = if step % 2 == 1 { r - r % 3 } else { r - r % 3 + 1 };
+            }
+            if hops && r % 3 != 0 {
+                let d = i64::from(1 + (r / 3) % maxhop).min(li - abs);
+                match guarded(|| reader.seek(SeekFrom::Current(d))) {
+                    Ok(Ok(p)) => tw.push(&json!({"ev": "seek", "whence": "cur", "arg": d, "res": "ok", "ret": p, "stack": sname})),
+                    Ok(Err(e)) => tw.push(&json!({"ev": "seek", "whence": "cur", "arg": d, "res": "err", "ret": -1, "stack": sname, "detail": e.to_string()})),
+                    Err(p) => tw.push(&json!({"ev": "seek", "whence": "cur", "arg": d, "res": "panic", "ret": -1, "stack": sname, "detail": p})),
+                }
+                abs += d;
+                continue;
+            }
             if r % 3 != 0 {
                 let t = targets[(r as usize / 3) % targets.len()];
                 let (whence, arg, sf) = match (r / 7) % 3 {
@@ -300,7 +323,7 @@ pub fn main_trace(args: &[String]) {
                 }
                 abs = t;
             } else {
-                let n = sizes[(r as usize / 3) % sizes.len()];
+                let n = if hops { 1 + (r as usize / 3) % 1500 } else { sizes[(r as usize / 3) % sizes.len()] };
                 let mut buf = vec![0u8; n];
                 match guarded(|| reader.read(&mut buf)) {
                     Ok(Ok(k)) => {
